@@ -652,6 +652,16 @@ def compare(model_trace, real_trace, prop_of_op, tolerated=frozenset(), known=No
             for n in rev:
                 if n not in mev and n not in optional:
                     return (f"{P}.events", opi, f"w{me[1]} got an unexpected event for {n} (expected {sorted(mev)})")
+                if n not in mev:
+                    # the parameter was assigned in the batch but had no qualifying event for THIS watcher (changes-only, equal
+                    # value): some other watcher's event for it is handed over as well
+                    d = (f"w{me[1]} (changes-only) was handed an event for {n}, which was assigned an equal value in the batch and so had no "
+                         f"qualifying event for it (its qualifying parameters: {sorted(mev)}); the event exists because another watcher "
+                         f"of {n} is not changes-only")
+                    if 'C04.extra_event_for_unqualified_parameter' in tolerated:
+                        known.append(('C04.extra_event_for_unqualified_parameter', d))
+                    else:
+                        return ('C04.extra_event_for_unqualified_parameter', opi, d)
             if [n for n in rev if n in mev] != [n for n in mev]:
                 pass    # order of events inside one call is not specified
             if me[3] != re_[3]:
